@@ -456,6 +456,12 @@ func c18GridCases(tier string) []c18GridCase {
 			}
 		}
 	}
+	// total stake 65535: the 16-bit normalisation is exact (weight = stake), so a majority of one unit must decide
+	add([]int64{32768, 32767}, []bool{true, false})
+	add([]int64{32768, 16384, 16383}, []bool{true, false, false})
+	add([]int64{32767, 16384, 16384}, []bool{true, false, false})
+	add([]int64{16384, 16384, 16384, 16383}, []bool{true, true, false, false})
+	add([]int64{21846, 21845, 21844}, []bool{true, false, false})
 	// very large stakes (a validator's power times 65535 no longer fits 64 bits): clear majorities only, so that the
 	// 16-bit normalisation cannot matter
 	for _, u := range []int64{100_000_000_000_000, 1_000_000_000_000_000} {
